@@ -199,12 +199,16 @@ func init() {
 		return Value{K: kScalar, T: fv.errIs(args[0].T, args[1].T), Type: fv.typeOf(x)}, true
 	}
 
-	libModelDocs["bytes.Equal"] = "equality of the content identities of the two byte slices (bytes_id is an abstract, injective-by-assumption function of contents); no effect"
+	libModelDocs["bytes.Equal"] = "equality of the content identities of the two byte slices (bytes_id is an abstract, injective-by-assumption function of contents; equal identities have equal lengths, and all empty slices - nil or not - share one identity); no effect"
 	libModels["bytes.Equal"] = func(fv *FV, e *Env, x *ast.CallExpr, recv *Value, args []Value) (Value, bool) {
 		if args[0].K != kSlice || args[1].K != kSlice {
 			return Value{}, false
 		}
-		return Value{K: kScalar, T: eq(fv.bytesID(e, args[0]), fv.bytesID(e, args[1])), Type: fv.typeOf(x)}, true
+		same := eq(fv.bytesID(e, args[0]), fv.bytesID(e, args[1]))
+		// content identity determines the length, and there is one empty content (nil and empty slices alike)
+		fv.assume(e, implies(same, eq(args[0].Len, args[1].Len)))
+		fv.assume(e, implies(and(eq(args[0].Len, intLit(0)), eq(args[1].Len, intLit(0))), same))
+		return Value{K: kScalar, T: same, Type: fv.typeOf(x)}, true
 	}
 	libModelDocs["slices.IndexFunc"] = "result is -1 or an index of the slice (which element it is, is not modelled); the predicate is not executed"
 	libModels["slices.IndexFunc"] = func(fv *FV, e *Env, x *ast.CallExpr, recv *Value, args []Value) (Value, bool) {
